@@ -1405,6 +1405,7 @@ impl World {
         let mut labels = vec![];
         let height = self.height();
         let mut used: HashSet<CoinID> = HashSet::new();
+        let mut created: HashMap<CoinID, CoinDataHeight> = HashMap::new();
         let hostile_at = if self.rng.chance(self.profile.hostile, 100) { Some(self.rng.usize(n)) } else { None };
         for k in 0..n {
             let hostile = hostile_at == Some(k);
@@ -1423,6 +1424,7 @@ impl World {
                 if dependent && !hostile && tx.kind != TxKind::Stake {
                     for (id, c) in model::outputs_of(&tx, height) {
                         self.learn_id(id);
+                        created.insert(id, c.clone());
                         self.utxo.insert(id, c);
                     }
                 }
@@ -1438,7 +1440,7 @@ impl World {
             if !children.is_empty() {
                 let ci = *self.rng.pick(&children);
                 let child = txs[ci].clone();
-                let inputs: Vec<(CoinID, CoinDataHeight)> = child.inputs.iter().filter_map(|i| self.utxo.get(i).or_else(|| saved_utxo.get(i)).map(|c| (*i, c.clone()))).collect();
+                let inputs: Vec<(CoinID, CoinDataHeight)> = child.inputs.iter().filter_map(|i| created.get(i).or_else(|| saved_utxo.get(i)).map(|c| (*i, c.clone()))).collect();
                 if inputs.len() == child.inputs.len() {
                     if self.rng.chance(1, 2) {
                         let mut twin = child.clone();
